@@ -14,6 +14,10 @@ def run(tier, seed):
         kind, ops, obs = srcprops.nominal_source_case(cfg, data, ncalls=4)
         hc.add_trace(kind, ops, obs, label="mode/closure matrix", oracle=srcprops.oracle_c19)
         hc.count(("req_mode", cfg.req_mode, "req_closure", cfg.req_closure))
+    for seq in hcommon.share(srcprops.c19_seq_edge_cases(hc.rng)):
+        kind, ops, obs = srcprops.reuse_source_case(seq, tag="c19s")
+        hc.add_trace(kind, ops, obs, label="sequence numbers up to the top of the field", oracle=srcprops.oracle_c19)
+        hc.count(("seq_edge", seq[0][0].seqw, seq[0][0].seq_start - 2 ** (8 * seq[0][0].seqw)))
     n = 250 if tier == "quick" else 20000
     for _ in range(n):
         c = campaign.rand_hostile_case(hc.rng, "source")
@@ -26,7 +30,8 @@ def run(tier, seed):
         if len(hc.v.violations) > 3:
             break
     hc.correspondence(project=hcommon.proj_all_external, theorem="c19_put_* / c19_transaction_start (correspondence source)")
-    return hc.finish("all 3x3x2x2 request/MIB mode+closure combinations on fresh handlers + random source op streams with valid, "
+    return hc.finish("all 3x3x2x2 request/MIB mode+closure combinations on fresh handlers + runs of 4 consecutive transactions whose "
+                     "provider values reach and pass the largest value of an 8/16/32-bit sequence-number field + random source op streams with valid, "
                      "invalid (missing file, unknown entity) and premature put requests interleaved with running transactions; "
                      "distinct = (config class, set of (step, op, exception) visited)")
 
